@@ -36,7 +36,7 @@ def main():
     props = PROPS
     if args and args[0] == "--props":
         props = args[1].split(","); args = args[2:]
-    ids = args or sorted(os.listdir(f"{V}/twins"))
+    ids = args or sorted(d for d in os.listdir(f"{V}/twins") if os.path.isdir(f"{V}/twins/{d}"))
     fa = e2 = 0
     with ThreadPoolExecutor(8) as ex:
         for tid, out in ex.map(lambda t: one(t, props), ids):
